@@ -493,6 +493,28 @@ def extract_unit(repo, unit_dir, out_path, variant=None):
             segs.replace(ls, end, ab['replacement'], 'rewrite', "R8'' statement abstraction")
             log.append({'rule': "R8'' statement abstraction: one statement replaced by an opaque call whose result is named by an uninterpreted spec function", 'item': it['name'],
                         'anchor': ab['regex'], 'dropped_lines': dropped.count('\n') + 1})
+        # R8''': block abstraction -- replace the CONTENTS of the block opened at the end of an anchor line (a match arm) by an opaque call
+        for ab in it.get('abstract_block', []):
+            text = segs.text()
+            m2 = rl.code_mask(text)
+            _, ob2, cb2 = _fn_header(text, m2, it['name'])
+            rx = re.compile(ab['regex'])
+            pos = ob2 + 1
+            hits = []
+            for line in text[ob2 + 1:cb2].split('\n'):
+                st = line.rstrip()
+                if st.strip() and rx.search(line) and st.endswith('{') and m2[pos + len(st) - 1]:
+                    hits.append(pos + len(st) - 1)
+                pos += len(line) + 1
+            kk = ab.get('occurrence', 1)
+            if len(hits) < kk:
+                raise LostAnchor("fn %s: R8''' block anchor /%s/ occurrence %d not found" % (it['name'], ab['regex'], kk))
+            o2 = hits[kk - 1]
+            c2 = rl.match_close(text, m2, o2)
+            dropped = text[o2 + 1:c2]
+            segs.replace(o2 + 1, c2, '\n' + ab['replacement'] + '\n', 'rewrite', "R8''' block abstraction")
+            log.append({'rule': "R8''' block abstraction: the contents of one block (a match arm) replaced by an opaque call", 'item': it['name'],
+                        'anchor': ab['regex'], 'dropped_lines': dropped.count('\n')})
         # rewrites (single line, regex)
         for rw in spec.get('rewrites', []):
             if 'only' in rw and it['name'] not in rw['only']:
